@@ -1188,17 +1188,17 @@ Lemma helper_exists x bridging : forall fuel s,
     GInv reads n k D x (cov s2) (sel s2) (und s2).
 Proof.
   induction fuel as [|fuel IH]; intros s G Hlen.
-  - exists [], s, []. destruct (und s) eqn:Eu; simpl in Hlen; [|lia].
-    split; [simpl; rewrite Eu; reflexivity|]. split; [exact Eu | rewrite <- Eu; exact G].
-  - destruct (und s) as [|u us] eqn:Eu.
-    + exists [], s, []. split; [simpl; rewrite Eu; reflexivity|]. split; [exact Eu | rewrite <- Eu; exact G].
-    + rewrite <- Eu in G.
+  - destruct (und s) eqn:Eu; simpl in Hlen; [|lia]. rewrite <- Eu in G.
+    exists [], s, []. split; [simpl; rewrite Eu; reflexivity|]. split; [exact Eu | exact G].
+  - destruct (und s) as [|u us] eqn:Eu; rewrite <- Eu in G.
+    + exists [], s, []. split; [simpl; rewrite Eu; reflexivity|]. split; [exact Eu | exact G].
+    + 
       pose proof (gi_nd_und _ _ _ _ _ _ _ _ G) as ND.
       destruct (iteration_ok reads n k Hwf D HD x bridging s (und s) (canon_bo reads k bridging s) G)
         as [E | (s1 & item & E & G1 & Hlt & _)].
       * exfalso. exact (iteration_canon_legal reads n k bridging s ND E).
       * assert (Hne : und s <> []) by (rewrite Eu; congruence).
-        specialize (Hlt Hne). rewrite Eu in Hlen, Hlt. simpl in Hlen, Hlt.
+        specialize (Hlt Hne). rewrite Eu in Hlt. simpl in Hlen, Hlt.
         destruct (IH s1 G1 ltac:(lia)) as (o' & s2 & items & E2 & Hu2 & G2).
         exists ((und s, canon_bo reads k bridging s) :: o'), s2, (item :: items).
         split; [|split; assumption].
